@@ -1686,6 +1686,201 @@ def run_C18(ctx):
     return res
 
 
+# ================================================================== C05
+DYADIC = [0.5, 2.0, 0.25, 4.0, 1.0, 0.125, 8.0]
+
+
+def concat_outputs(tr, nch):
+    """per channel: concatenation of the frames written by every successful call (hex strings)"""
+    chans = [[] for _ in range(nch)]
+    nin = 0
+    for s in tr['steps']:
+        if s.res in FATAL:
+            return None, nin
+        if s.res == 'counts':
+            nin += int(s.fields[0])
+            nout = int(s.fields[1])
+            for c in range(nch):
+                chans[c].extend(expand_hex(s.outs[c])[:nout])
+    return chans, nin
+
+
+def run_C05(ctx):
+    rng, tier = ctx.rng, ctx.tier
+    res = new_results("families of resamplers of the same algorithm, filter and ratio fed the same input stream (a function of the absolute stream "
+                      "position) cut differently: chunk sizes in [1,4096], fixed-input vs fixed-output (vs fixed-in-out), set_chunk_size schedules in "
+                      "mid-stream (sinc), FFT (chunk, sub_chunks) pairs resolving to the same block size; the concatenated outputs must agree on "
+                      "their common prefix: bit for bit whenever the position arithmetic is exact (dyadic ratios; always for FFT), else within "
+                      "1e-6*peak (f64) / 1e-5*peak (f32)", ALL_COMPONENTS)
+    cases = []
+    n = 24 if ctx.quick else 300
+    rl = getattr(ctx, 'replay_lines', None)
+    if rl:
+        n = 0
+        # a replay file holds the whole family, members separated by lines '## member'
+        members, cur = [], []
+        for l in rl:
+            if l.startswith('## member'):
+                if cur:
+                    members.append(cur)
+                cur = []
+            elif not l.startswith('##'):
+                cur.append(l)
+        if cur:
+            members.append(cur)
+        fam = []
+        for j, m in enumerate(members):
+            kv0 = parse_kv(next(l for l in m if l.startswith('NEW')))
+            fam.append(Case("replay_m%d" % j, m, {'cfg': {'kind': kv0.get('kind'), 'nch': int(kv0.get('nch', 1)), 'ty': parse_kv(m[0]).get('ty', 'f64')},
+                                                  'is_twin': j > 0, 'exact': False}))
+        fam[0].meta['family'] = fam[1:]
+        fam[0].meta['exact'] = '## exact' in rl
+        cases += fam
+    for i in range(n):
+        r = rng.fork("c05_%d" % i)
+        fam_kind = ['fast', 'sinc', 'fft'][i % 3]
+        seed = r.below(1 << 30)
+        sig = "rand:%d" % seed
+        total_in = 200 + r.below(400 if ctx.quick else 3000)
+        members = []
+        exact = False
+        if fam_kind in ('fast', 'sinc'):
+            base = async_cfg(r, fam_kind + 'in', 'quick', nch=r.choice([1, 2]), maxrel=r.choice([1.0, 2.0]))
+            nearest = (fam_kind == 'fast' and base['deg'] == 4) or (fam_kind == 'sinc' and base['itype'] == 3)
+            if nearest or r.chance(0.3):
+                base['ratio'] = r.choice(DYADIC)
+                exact = True
+            if fam_kind == 'sinc':
+                base['slen'] = base['L'] = r.choice([8, 16, 32, 64]); base['interp'] = r.choice(['default', 'scalar'])
+                if base['factor'] < 2:
+                    base['factor'] = 2
+                total_in = min(total_in, 600)
+            hi = 4096 if fam_kind == 'fast' else (128 if ctx.quick else 512)
+            def pick():
+                return r.choice([1, 2, 3, 7, 8, 16, 17, 64, 100, hi]) if r.chance(0.5) else 1 + r.below(hi)
+            variants = [(fam_kind + 'in', pick(), None), (fam_kind + 'in', pick(), None), (fam_kind + 'out', pick(), None)]
+            if r.chance(0.5):
+                variants.append((fam_kind + 'out', pick(), None))
+            if fam_kind == 'sinc':
+                for kk in ('sincin', 'sincout'):
+                    cmax = 2 + r.below(hi)
+                    variants.append((kk, cmax, [1 + r.below(cmax) for _ in range(40)]))
+            for (kind, chunk, sched) in variants:
+                c = dict(base); c['kind'] = kind; c['chunk'] = chunk
+                # keep the history-buffer cost of the model bounded for sinc
+                per_call_in = chunk if kind.endswith('in') else max(1.0, chunk / c['ratio'])
+                lines = ["T ty=%s" % c['ty'], new_line(c)]
+                fed = 0
+                j = 0
+                while fed < total_in and j < 4000:
+                    if sched is not None and j % 2 == 1:
+                        nsz = sched[(j // 2) % len(sched)]
+                        lines.append("SETCHUNK n=%d" % nsz)
+                        per_call_in = nsz if kind.endswith('in') else max(1.0, nsz / c['ratio'])
+                    lines.append("PIB mask=- inlen=%s outlen=%s sig=%s" % (";".join(['next'] * c['nch']), ";".join(['next'] * c['nch']), sig))
+                    fed += per_call_in
+                    j += 1
+                members.append((c, lines))
+        else:
+            rin, rout = r.choice(gens.RATE_PAIRS[:12] + [(100, 83), (147, 160)])
+            g = math.gcd(rin, rout)
+            mi, mo = rin // g, rout // g
+            while max(mi, mo) > 700:
+                rin, rout = r.choice(gens.RATE_PAIRS[:8])
+                g = math.gcd(rin, rout); mi, mo = rin // g, rout // g
+            m = 1 + r.below(3 if max(mi, mo) > 100 else 12)
+            nch = r.choice([1, 2])
+            ty = r.choice(['f64', 'f32'])
+            exact = True
+            total_in = max(total_in, 4 * m * mi)
+            def cfgs():
+                out = []
+                for _ in range(2):
+                    sub = r.choice([1, 1, 2, 3, 5])
+                    w = (m - 1) * mi + 1 + r.below(mi)
+                    out.append({'kind': 'fftin', 'rin': rin, 'rout': rout, 'chunk': w * sub + r.below(sub), 'sub': sub, 'nch': nch, 'ty': ty})
+                for _ in range(2):
+                    sub = r.choice([1, 1, 2, 3, 5])
+                    w = (m - 1) * mo + 1 + r.below(mo)
+                    out.append({'kind': 'fftout', 'rin': rin, 'rout': rout, 'chunk': w * sub + r.below(sub), 'sub': sub, 'nch': nch, 'ty': ty})
+                out.append({'kind': 'fftinout', 'rin': rin, 'rout': rout, 'chunk': (m - 1) * mi + 1 + r.below(mi), 'nch': nch, 'ty': ty})
+                return out
+            for c in cfgs():
+                per_call_in = c['chunk'] if c['kind'] == 'fftin' else (m * mi if c['kind'] == 'fftinout' else max(1.0, c['chunk'] * rin / rout))
+                lines = ["T ty=%s" % c['ty'], new_line(c)]
+                fed, j = 0, 0
+                while fed < total_in and j < 3000:
+                    lines.append("PIB mask=- inlen=%s outlen=%s sig=%s" % (";".join(['next'] * nch), ";".join(['next'] * nch), sig))
+                    fed += per_call_in
+                    j += 1
+                members.append((c, lines))
+        fam = []
+        for j, (c, lines) in enumerate(members):
+            fam.append(Case("ck_%04d_%s_m%d_%s" % (i, fam_kind, j, c['kind']), lines, {'cfg': c, 'is_twin': j > 0, 'kind': fam_kind}))
+        fam[0].meta['family'] = fam[1:]
+        fam[0].meta['exact'] = exact
+        cases += fam
+
+    def judge(c):
+        if c.meta.get('is_twin'):
+            return []
+        out = []
+        fam = [c] + c.meta['family']
+        streams = []
+        for m in fam:
+            if not getattr(m, 'trace', None):
+                m.trace = parse_trace(m.impl_path, m.hist_path)
+            if m.trace['new'] != 'ok':
+                return [fail(m, -1, "constructor failed on valid arguments: %s" % m.trace['new'])]
+            chans, nin = concat_outputs(m.trace, m.meta['cfg']['nch'])
+            if chans is None:
+                return [fail(m, -1, "fatal outcome in a constant-ratio stream")]
+            streams.append(chans)
+        ty = c.meta['cfg']['ty']
+        conv = hexf64 if ty == 'f64' else hexf32
+        tol = 1e-6 if ty == 'f64' else 1e-5
+        fam_path = c.spec_path[:-5] + '.family'
+        with open(fam_path, 'w') as fh:
+            if c.meta['exact']:
+                fh.write("## exact\n")
+            for m in fam:
+                fh.write("## member\n" + "\n".join(m.spec) + "\n")
+        ref = streams[0]
+        longest = max(len(st[0]) for st in streams)
+        for j in range(1, len(fam)):
+            for ch in range(len(ref)):
+                a, b = ref[ch], streams[j][ch]
+                mlen = min(len(a), len(b))
+                if mlen == 0 and longest > 64 and min(len(a), len(b)) == 0 and max(len(a), len(b)) > 0 and False:
+                    pass
+                if c.meta['exact']:
+                    if a[:mlen] != b[:mlen]:
+                        k = next(k for k in range(mlen) if a[k] != b[k])
+                        out.append(fail(c, -1, "members 0 (%s) and %d (%s): channel %d differs at output frame %d of %d common frames (position arithmetic "
+                                        "is exact here: the streams must be bit-identical)" % (fam[0].meta['cfg']['kind'], j, fam[j].meta['cfg']['kind'], ch, k, mlen),
+                                        spec_path=fam_path, hist_path=None))
+                        return out
+                else:
+                    xa = [conv(h) for h in a[:mlen]]
+                    xb = [conv(h) for h in b[:mlen]]
+                    peak = max([1.0] + [abs(v) for v in xa])
+                    for k in range(mlen):
+                        if not abs(xa[k] - xb[k]) <= tol * peak:
+                            out.append(fail(c, -1, "members 0 (%s chunk %s) and %d (%s chunk %s): channel %d differs by %.3g at output frame %d of %d common frames"
+                                            % (fam[0].meta['cfg']['kind'], fam[0].meta['cfg'].get('chunk'), j, fam[j].meta['cfg']['kind'], fam[j].meta['cfg'].get('chunk'),
+                                               ch, abs(xa[k] - xb[k]), k, mlen), spec_path=fam_path, hist_path=None))
+                            return out
+        c.meta['common'] = min(len(st[0]) for st in streams)
+        return out
+
+    execute(ctx, cases, res, judge, timeout=600)
+    res['dist'].update(collections.Counter("%s:%s" % (c.meta.get('kind', 'replay'), c.meta['cfg']['kind']) for c in cases))
+    commons = [c.meta.get('common', 0) for c in cases if not c.meta.get('is_twin')]
+    res['dist']['median_common_prefix_frames'] = sorted(commons)[len(commons) // 2] if commons else 0
+    res['dist']['families_with_empty_common_prefix'] = sum(1 for x in commons if x == 0)
+    return res
+
+
 def witness_fails(pid, c):
     """does the stored witness of a known finding still fail on this tree?"""
     tr = c.trace
@@ -1863,5 +2058,19 @@ PROPS = {
                      'data races / memory-model effects: the model is sequential; Rust\'s ownership (no unsafe impl Send/Sync in src, checked by the summary) is what excludes them'],
         'assumptions': ['a resampler instance is a value: the model state of an instance is only reachable through its own step function (theorem: projection of any interleaving)'],
         'trusted_base': ['closed under the global context (no axioms)', 'tools/sites.py summaries() pattern list SHARED_PATTERNS'],
+    },
+    'C05': {
+        'run': run_C05,
+        'replay_aware': True,
+        'pinned': ['C05_fast_in_call_R', 'C05_fast_in_stream_R', 'C05_fast_out_stream_R', 'C05_fast_chunk_independent_R',
+                   'C05_fast_variant_independent_R'],
+        'unproved': ['sinc resamplers (incl. set_chunk_size in mid-stream) and the three FFT resamplers: no stream theorem; decided by the bit-exact '
+                     'model on every member of every family plus the family comparison of the implementation outputs',
+                     'ratio schedules (set_resample_ratio between chunks): the theorems are for constant ratio',
+                     '"equal up to floating-point rounding": the theorems are over R; the size of the float deviation between two chunkings is '
+                     'measured against a fixed tolerance (bit-identity is demanded where the position arithmetic is exact)'],
+        'assumptions': ['ideal arithmetic for the theorems; masks: calls without a mask (C11 gives the per-channel independence)',
+                        'the input signal of the compared runs is one function of the absolute stream position (harness generator)'],
+        'trusted_base': ['Reals axioms (lra/nra/field), Flocq Zfloor/Zceil lemmas'],
     },
 }
